@@ -32,6 +32,8 @@ var (
 	tsaMode      string
 	tsaMu        sync.Mutex
 	tsaIssued    [][]byte // tokens the loopback authority issued, in order
+	// tsaOverride, when set, answers instead of the `openssl ts` authority selected by tsaMode
+	tsaOverride func(query []byte) ([]byte, error)
 )
 
 func startLoopbackTSA() *httptest.Server {
@@ -39,8 +41,17 @@ func startLoopbackTSA() *httptest.Server {
 		body, _ := io.ReadAll(r.Body)
 		tsaMu.Lock()
 		mode := tsaMode
+		over := tsaOverride
 		tsaMu.Unlock()
-		resp, err := osslTSAs[mode].reply(body)
+		var resp []byte
+		var err error
+		if over != nil {
+			resp, err = over(body)
+		} else if o := osslTSAs[mode]; o != nil {
+			resp, err = o.reply(body)
+		} else {
+			err = fmt.Errorf("no authority %q", mode)
+		}
 		if err != nil {
 			http.Error(w, err.Error(), 500)
 			return
